@@ -6,7 +6,7 @@ from ..run import inst
 
 PROPERTY = 'C08'
 ASSUMPTIONS = ['control polygons are Bezier (degree + 1 points); coordinates (homogeneous or Cartesian) are symbolic reals']
-OUTSIDE = ['degrees > 8 (quick) / 10 (thorough)', 'elevation counts > 4']
+OUTSIDE = ['degrees > 8 (quick) / 14 (thorough)', 'elevation counts > 4']
 BOUNDS = {'quick': 'degrees 1..8, num 1..4, points of dimension 2..4 and rows of points (surface case); reduction of exact elevations for every degree 2..9',
           'thorough': 'degrees 1..10, repeated reductions back to the original degree'}
 
@@ -70,7 +70,7 @@ def h_reject(cx, p):
 def instances(tier):
     out = []
     quick = tier == 'quick'
-    pmax = 8 if quick else 10
+    pmax = 8 if quick else 14
     for p in range(1, pmax + 1):
         for num in (1, 2, 3, 4):
             out.append(inst('elevate p%d num%d' % (p, num), h_elevate, p=p, num=num, dim=2 + (p + num) % 3))
